@@ -672,6 +672,8 @@ func genChain(c *Ctx) {
 		{kind: "all", sel: ".to[1:]", subs: []pstmt{{kind: "like", sel: ".", pat: "*@example.com"}}},
 		{kind: "any", sel: ".to[:-1]", subs: []pstmt{{kind: "like", sel: ".", pat: "b@*"}}},
 		{kind: "==", sel: ".file[1:][1:]", val: J(`"fé.png"`)}, {kind: "==", sel: ".file[2:][:2]", val: J(`"fé"`)},
+		{kind: "==", sel: ".file[1:][:2]", val: J(`"ca"`)}, {kind: "not", subs: []pstmt{{kind: "==", sel: ".file[2:][:2]", val: J(`"fé"`)}}},
+		{kind: "==", sel: ".file[:4][2:]", val: J(`"fé.png"`)}, {kind: "like", sel: ".file[1:][0:3]", pat: "caf"},
 		{kind: "==", sel: ".req.mode?", val: J(`"readonly"`)}, {kind: "like", sel: ".req.path?", pat: "/public/*"},
 		{kind: "not", subs: []pstmt{{kind: "==", sel: ".req.owner?", val: J(`null`)}}}, {kind: "like", sel: ".req.mode?", pat: "*"},
 		{kind: "==", sel: ".req?.mode?", val: J(`null`)},
@@ -892,6 +894,11 @@ func genChain(c *Ctx) {
 		}
 		clockCase("chain/clock/nbf-now", []delegation.Option{delegation.WithNotBeforeIn(0)}, nil, WInt(-1000), WNull, WNull)
 		clockCase("chain/clock/nbf-now", []delegation.Option{delegation.WithNotBeforeIn(-time.Millisecond)}, nil, WInt(-1000000), WNull, WNull)
+		// a not-before at the next whole second, a fraction of a second ahead: not valid yet
+		N := time.Now().Truncate(time.Second).Add(time.Second)
+		stillAhead = func() bool { return time.Until(N) > 100*time.Millisecond }
+		clockCase("chain/clock/nbf-ahead", []delegation.Option{delegation.WithNotBefore(N)}, nil, WInt(int64(100*time.Millisecond)), WNull, WNull)
+		stillAhead = nil
 		E := time.Now().Truncate(time.Second).Add(2 * time.Second)
 		stillAhead = func() bool { return time.Until(E) > 200*time.Millisecond }
 		clockCase("chain/clock/exp-ahead", []delegation.Option{delegation.WithExpiration(E)}, nil, WNull, WInt(int64(time.Second)), WNull)
